@@ -494,7 +494,7 @@ func (r *runner) explore(h HarnessSpec, params map[string]int64) *harnessResult 
 					res.Inputs[d.Name] = d
 				}
 				res.Violations = append(res.Violations, pr.Violations...)
-				if pr.Status == "ok" && pr.Witness != nil && len(res.Witnesses) < 64 {
+				if pr.Status == "ok" && pr.Witness != nil && len(pr.Violations) == 0 && len(res.Witnesses) < 64 {
 					res.Witnesses = append(res.Witnesses, witness{Inputs: pr.Witness, Observes: pr.Observes, Reached: pr.Reached, NDec: len(pr.Decisions)})
 				}
 				queue = append(queue, pr.Alts...)
